@@ -78,7 +78,7 @@ def op_strategy(kind, none_p=True, bulk_empty=True, heavy=True, only=None):
         (4, "remove_node_from_edge", st.tuples(st.just("remove_node_from_edge"), e, nm, b).map(list)),
         (1, "update", st.tuples(st.just("update"), st.one_of(st.none(), st.lists(members_of(kind, 1, 3, False), max_size=2)), st.one_of(st.none(), st.lists(n, max_size=2))).map(list)),
         (1, "set_net_attr", st.tuples(st.just("set_net_attr"), st.sampled_from(["name", "tag"]), nets.attr_value).map(list)),
-        (3, "merge_duplicate_edges", st.tuples(st.just("merge_duplicate_edges"), st.sampled_from(["first", "tuple", "new"]), st.sampled_from(["first", "union", "intersection"]), st.sampled_from([None, "mult"])).map(list)),
+        (5, "merge_duplicate_edges", st.tuples(st.just("merge_duplicate_edges"), st.sampled_from(["first", "tuple", "new"]), st.sampled_from(["first", "union", "intersection"]), st.sampled_from([None, "mult"])).map(list)),
     ]
     if heavy:
         ops += [
@@ -107,6 +107,8 @@ def init_strategy(kind):
         st.tuples(st.just("df"), st.lists(st.tuples(n, eid_literal).map(list), max_size=6)).map(list),
         st.tuples(st.just("inc"), st.integers(1, 4), st.integers(1, 4), st.lists(st.integers(0, 1), min_size=16, max_size=16)).map(list),
         st.tuples(st.just("copyof"), st.lists(st.tuples(eid_literal, mem).map(list), max_size=3, unique_by=lambda t: repr(t[0]))).map(list),
+        # a network that went through a tuple-renaming merge and then re-used the freed IDs for new duplicates
+        st.tuples(st.just("after-merge"), mem, mem).map(list),
     )
 
 
@@ -128,6 +130,14 @@ def make_init(init):
         return xgi.Hypergraph(I)
     if t == "copyof":
         return xgi.Hypergraph(xgi.Hypergraph({k: list(m) for k, m in init[1]}))
+    if t == "after-merge":
+        H = xgi.Hypergraph()
+        H.add_edge(list(init[1]), idx=0)
+        H.add_edge(list(init[1]), idx=1)
+        H.merge_duplicate_edges(rename="tuple")
+        H.add_edge(list(init[2]), idx=0)
+        H.add_edge(list(init[2]), idx=1)
+        return H
     raise ValueError(t)
 
 
